@@ -1,6 +1,6 @@
 (** C10 - Every item `ls` shows can be addressed by the names shown; other paths say so.
     Property theorems only. *)
-From SE Require Import Base Codecs Cue Names NamesProofs PathProofs.
+From SE Require Import Base Codecs Cue Names NamesProofs PathProofs NamesMoreProofs.
 
 (** Sibling names printed by `ls` (make_safe_names) are pairwise distinct, one per item, for
     ANY raw names... *)
@@ -21,6 +21,61 @@ Theorem ls_keys_distinct :
   forall names, Forall stripped names -> NoDup names -> NoDup (map (sanitize_token false) names).
 Proof. exact keys_distinct_lemma. Qed.
 Print Assumptions ls_keys_distinct.
+
+(** In general - for ANY raw sibling names - the lookup keys of the names `ls` prints are
+    pairwise distinct.  The printed names are not always stripped: the counted forms of the
+    empty safe name and of stereo-shaped names with an empty stem ("-L", "-L" -> "-L",
+    " (2) L") begin with a blank; but such a name is one blank followed by "(", and
+    make_safe_name never outputs a parenthesis, so no two printed names strip to the same
+    key.  This discharges the sibling-key hypothesis of [node_at] (used by [path_roundtrip])
+    for every directory of a non-AKAI image. *)
+Theorem ls_keys_distinct_general :
+  forall elems names, make_safe_names elems = Ok names -> NoDup (map (sanitize_token false) names).
+Proof. exact keys_distinct_general_lemma. Qed.
+Print Assumptions ls_keys_distinct_general.
+
+(** AKAI images normalise with upper-case + strip + one trailing colon dropped.  For raw
+    names over the AKAI display alphabet (digits, blank, A-Z, # + - . : what
+    [akai_to_ascii] yields) the printed names (with the "(" ")" of counted forms) contain no
+    lower-case letter and no colon, the AKAI key of a printed name is its strip, and the keys
+    are pairwise distinct as well. *)
+Theorem ls_keys_distinct_akai :
+  forall elems names,
+    Forall (fun e => Forall (fun c => akai_char c = true) (fst e)) elems ->
+    make_safe_names elems = Ok names -> NoDup (map (sanitize_token true) names).
+Proof. exact keys_distinct_akai_lemma. Qed.
+Print Assumptions ls_keys_distinct_akai.
+
+(** the alphabet hypothesis holds of every name the AKAI string decoder returns *)
+Theorem akai_decoded_names_in_alphabet :
+  forall l s, akai_to_ascii l = Ok s -> Forall (fun c => akai_char c = true) s.
+Proof. exact akai_to_ascii_alphabet. Qed.
+Print Assumptions akai_decoded_names_in_alphabet.
+
+(** more generally: raw names without lower-case letters and without ":" (any other
+    characters allowed): the AKAI keys coincide with the plain keys and are distinct *)
+Theorem ls_keys_distinct_no_lowercase_no_colon :
+  forall elems names,
+    Forall (fun e => Forall (fun c => plain_c c = true) (fst e)) elems ->
+    make_safe_names elems = Ok names ->
+    map (sanitize_token true) names = map (sanitize_token false) names
+    /\ NoDup (map (sanitize_token true) names).
+Proof. exact keys_distinct_plain_lemma. Qed.
+Print Assumptions ls_keys_distinct_no_lowercase_no_colon.
+
+(** Non-vacuity: "-L", "-L", "--L", "--L", "", "" -> printed "-L", " (2) L", "--L", " (3) L",
+    "", " (2)" (three begin with a blank); keys "-L", "(2) L", "--L", "(3) L", "", "(2)".
+    AKAI: "KICK", "KICK", "KICK -L", "KICK -L". *)
+Example c10_keys_example :
+  let elems := [([45;76], true); ([45;76], true); ([45;45;76], true); ([45;45;76], true); ([], true); ([], true)] in
+  let akai := [([75;73;67;75], true); ([75;73;67;75], true); ([75;73;67;75;32;45;76], true); ([75;73;67;75;32;45;76], true)] in
+  make_safe_names elems = Ok [[45;76]; [32;40;50;41;32;76]; [45;45;76]; [32;40;51;41;32;76]; []; [32;40;50;41]]
+  /\ map (sanitize_token false) [[45;76]; [32;40;50;41;32;76]; [45;45;76]; [32;40;51;41;32;76]; []; [32;40;50;41]]
+     = [[45;76]; [40;50;41;32;76]; [45;45;76]; [40;51;41;32;76]; []; [40;50;41]]
+  /\ Forall (fun e => Forall (fun c => akai_char c = true) (fst e)) akai
+  /\ (r <- make_safe_names akai ;; Ok (map (sanitize_token true) r))
+     = Ok [[75;73;67;75]; [75;73;67;75;32;40;50;41]; [75;73;67;75;32;45;76]; [75;73;67;75;32;40;50;41;32;76]].
+Proof. cbv zeta. split; [|split; [|split]]; try (vm_compute; reflexivity). repeat constructor. Qed.
 
 (** Tokenizer: a path string that reads, after stripping, t0 sep t1 sep ... tn with an
     optional trailing separator (sep = "/", "\" or "\\"; tokens free of separators and
